@@ -38,7 +38,7 @@ REQUIRED_REACH = ["3d-edge-dofs", "composite-edge-and-facet", "interior-facets-s
                   "spelling:name", "spelling:collection", "filter:all-name", "filter:skip", "empty-selections",
                   "python-int-collections", "predicate-tags-and-oriented-selector", "large-coordinate-offset",
                   "filter:empty-name-list", "filter:names-in-tuple", "filter:names-in-set", "filter:names-in-dict-keys",
-                  "query-sequence-on-one-basis"]
+                  "query-sequence-on-one-basis", "by-kind-dicts-after-filter"]
 
 
 def entity_maps(mesh, elem, kind, dim):
@@ -489,6 +489,23 @@ def one_case(ctx, k, kind):
                     ctx.check("skip-keep-drop-consistent", set(sk.keep([a]).flatten().tolist()) == set(),
                               mech=f"filter-chain:skip-then-keep-same:{selname}", selector=selname, name=a, **tag)
                     ctx.reached("filter:skip")
+            # per-kind dictionaries of a FILTERED view: only the kept names, each with its own DOFs
+            if len(allnames) >= 2:
+                for fname, fview, keepnames in (("keep-first", view.keep([allnames[0]]), {allnames[0]}),
+                                                ("keep-last", view.keep([allnames[-1]]), {allnames[-1]}),
+                                                ("drop-first", view.drop([allnames[0]]), set(allnames[1:]))):
+                    fk = {"v": fview.nodal, "f": fview.facet, "e": fview.edge, "i": fview.interior}
+                    okf, badf = True, None
+                    for ek, dct in fk.items():
+                        for nm, arr in dct.items():
+                            wantn = {g_ for g_ in wantset if dofname[g_] == nm and dofinfo[g_][0] == ek} if nm in keepnames else set()
+                            if set(np.asarray(arr).tolist()) != wantn:
+                                okf, badf = False, (ek, nm, sorted(set(np.asarray(arr).tolist()))[:6], sorted(wantn)[:6])
+                                break
+                        if not okf:
+                            break
+                    ctx.check("by-kind-dicts", okf, mech=f"by-kind-dicts-of-a-filtered-view:{fname}", first_bad=badf, selector=sel, **tag)
+                ctx.reached("by-kind-dicts-after-filter")
             # per-kind dictionaries
             bykind = {"v": view.nodal, "f": view.facet, "e": view.edge, "i": view.interior}
             for ek, dct in bykind.items():
